@@ -200,4 +200,29 @@ theorem unique_properties_partial (col : List Bytes) (hn : NoTrailingNul col) (r
     · cases hcnt
     · subst hcnt; exact unique_counts_sum bytesLe_isOrder col
 
+/-! ## degenerate storage and the non-indexed dispatch -/
+
+/-- an indexed string field that was never written stores `indices = []` (not `[0]`, DESIGN D2): same results -/
+theorem isin_empty_storage (ts : List (Option Bytes)) :
+    applyIsin refNpIsin id (.indexed [] []) (some ts) = .ok [] := by
+  simp only [applyIsin, Option.map_some, isinForIndexedString, isinSpeedup, List.length_nil, Nat.zero_sub, isinLoop,
+    List.replicate_zero, ite_self]
+
+theorem unique_empty_storage (ri rv rc : Bool) :
+    applyUnique (refNpUnique bytesLe) id (.indexed [] []) ri rv rc
+      = .ok ⟨[], if ri then some [] else none, if rv then some [] else none, if rc then some [] else none⟩ := by
+  cases ri <;> cases rv <;> cases rc <;>
+    simp [applyUnique, uniqueForIndexedString, getIndexedStringUnique, uniqueLoop, npSortStr, npArgsortStr, gatherOpt,
+      gather, remapInverse]
+
+/-- non-indexed field types: `apply_isin` / `apply_unique` are exactly the numpy call (a parameter of the model; the
+    harness compares numpy with the Spec's reference semantics, no theorem speaks about numpy) -/
+theorem apply_isin_plain_delegates {α : Type} (npIsin : List α → Option (List (Option α)) → Except Err (List Bool))
+    (dec : α → Bytes) (data : List α) (tests : Option (List (Option α))) :
+    applyIsin npIsin dec (.plain data) tests = npIsin data tests := rfl
+
+theorem apply_unique_plain_delegates {α : Type} (npUnique : List α → Bool → Bool → Bool → UniqueResult α)
+    (ofBytes : Bytes → α) (data : List α) (ri rv rc : Bool) :
+    applyUnique npUnique ofBytes (.plain data) ri rv rc = .ok (npUnique data ri rv rc) := rfl
+
 end Exetera.Props.C14
